@@ -25,10 +25,11 @@ static const char *OPN[O_NOPS] = {"create", "create_tree", "init", "init_char", 
 //  init_numb a=[sel,val#,su#,scale,mlz]   autoinit_numb a=[sel,val#,su#,rule]   set_quoted a=[sel,quoted]   clean a=[sel]
 //  clone a=[sel,into(0=NULL,k=root k-1)]  free a=[root]  get_element_count a=[sel]
 //  list_get a=[sel,ixcode]  list_set/list_insert a=[sel,ixcode,elem]  list_remove a=[sel,ixcode,want_out]  list_append a=[sel,k,elem]
-//  table_set a=[sel,elem] s=[key]  table_get a=[sel,want_ptr] s=[key]  table_remove a=[sel,want_out] s=[key]  table_keys a=[sel]
-//  packet_create a=[null_array] s=[names...]  packet_set a=[pkt,elem] s=[name]  packet_get a=[pkt,want_ptr] s=[name]
-//  packet_remove a=[pkt,want_out] s=[name]  packet_names a=[pkt]  packet_free a=[pkt]
+//  table_set a=[sel,elem,kmode] s=[key]  table_get a=[sel,want_ptr,kmode] s=[key]  table_remove a=[sel,want_out,kmode] s=[key]  table_keys a=[sel]
+//  packet_create a=[null_array] s=[names...]  packet_set a=[pkt,elem,kmode] s=[name]  packet_get a=[pkt,want_ptr,kmode] s=[name]
+//  packet_remove a=[pkt,want_out,kmode] s=[name]  packet_names a=[pkt]  packet_free a=[pkt]
 //  elem: 0 = NULL (means UNK), 1 = THE MEMBER CURRENTLY IN THAT SLOT (aliasing case), k>=2 = pool value k-2
+//  sel >= 100: prefer a value whose kind suits the operation.  kmode: 0 = the literal key/name; 2j+1 = the stored spelling of existing entry j; 2j+2 = an equivalent re-spelling of it
 //  ixcode: 0 -> 0, 1 -> size/2, 2 -> size-1, 3 -> size, 4 -> size+3, 5 -> SIZE_MAX
 
 static std::string ser_ops(const std::vector<Op> &ops) {
@@ -126,6 +127,15 @@ struct Elem { cif_value_tp *real = nullptr; bool has = false; bool same_slot = f
 static const size_t MAXROOTS = 8, MAXPKTS = 4, MAXBORROWS = 6, MAXLIST = 30, MAXTABLE = 14, MAXITEMS = 8, MAXNODES = 400, MAXELEM = 150;
 
 static const char *F_PKTKEY = "F-PKTKEY-UAF";
+// another spelling of the same table key (canonically equivalent) / of the same data name (equivalent under normalisation + case folding)
+static ustr respell_key(const ustr &k) { ustr d = cm::nfd(k), c = cm::nfc(k); return k != d ? d : k != c ? c : k; }
+static ustr respell_name(const ustr &n) {
+    ustr d = cm::nfd(n); if (d != n) return d;
+    ustr o = n; bool ch = false;
+    for (auto &c : o) if (c >= u'a' && c <= u'z') { c = (char16_t) (c - 32); ch = true; }
+    if (!ch) for (auto &c : o) if (c >= u'A' && c <= u'Z') c = (char16_t) (c + 32);
+    return o;
+}
 
 struct Machine {
     std::vector<Root> roots; std::vector<Pkt> pkts; std::vector<Borrow> borrows; std::vector<CopyRec> copies;
@@ -263,6 +273,8 @@ struct Machine {
     // ---- one operation ------------------------------------------------------------------------------------
     std::string step(const Op &op) {
         label(std::string("op:") + OPN[op.code]);
+        { long nl = 0, ntb = 0; for (auto &r : roots) { if (r.m.k == Value::LIST) nl++; if (r.m.k == Value::TABLE) ntb++; }
+          note("poolsum_roots", (long) roots.size()); note("poolsum_list_roots", nl); note("poolsum_table_roots", ntb); note("poolsum_borrows", (long) borrows.size()); note("poolsum_packets", (long) pkts.size()); note("ops_interpreted", 1); }
         int rc = -1;
         std::string err = step2(op, rc);
         if (rc >= 0) label(std::string("rc:") + cm::code_name(rc));
@@ -286,7 +298,8 @@ struct Machine {
             roots.push_back({next_id++, v, m});
             return ""; }
         case O_INIT: case O_INITCHAR: case O_COPYCHAR: case O_PARSENUMB: case O_INITNUMB: case O_AUTONUMB: case O_SETQ: case O_CLEAN: case O_COUNT: {
-            unsigned mask = op.code == O_COUNT ? (1u << Value::LIST | 1u << Value::TABLE) : op.code == O_SETQ ? (1u << Value::CHAR | 1u << Value::NUMB | 1u << Value::UNK | 1u << Value::NA) : 0;
+            // (re)initialisers are mostly aimed at scalars so that the pool does not degenerate to scalars only
+            unsigned mask = op.code == O_COUNT ? (1u << Value::LIST | 1u << Value::TABLE) : (1u << Value::CHAR | 1u << Value::NUMB | 1u << Value::UNK | 1u << Value::NA);
             Tgt t = target(A(op, 0), mask); if (!t.ok) { skipped("no-target"); return ""; }
             Value *m = resolve(t.ref); if (!m) return "internal: dangling reference in the model";
             label(t.borrow ? "target:borrowed-member" : "target:root");
@@ -525,7 +538,12 @@ struct Machine {
             if (got != want) return "cif_value_get_keys does not report the keys in the spelling most recently entered";
             return "";
         }
-        ustr key = S(op, 0), nk = cm::nfc(key); bool valid = key_valid(key);
+        ustr key = S(op, 0);
+        if (long km = A(op, 2)) if (istable && !m->entries.empty()) {      // aim at an existing entry: its stored spelling (odd) or an equivalent one (even)
+            key = m->entries[(size_t) ((km - 1) / 2) % m->entries.size()].first;
+            if (km % 2 == 0) key = respell_key(key);
+        }
+        ustr nk = cm::nfc(key); bool valid = key_valid(key);
         if (!valid) label("key:invalid"); else if (key != nk) label("key:not-NFC");
         int ei = -1;
         if (istable && valid) for (size_t i = 0; i < m->entries.size(); i++) if (cm::nfc(m->entries[i].first) == nk) ei = (int) i;
@@ -617,7 +635,12 @@ struct Machine {
             return "";
         }
         if (op.code == O_PNAMES) { const UChar **names = nullptr; rc = cif_packet_get_names(p.real, &names); cm::ufree(names); return rc == CIF_OK ? "" : unexpected(rc, "CIF_OK"); }   // content: verify()
-        ustr name = S(op, 0); bool valid = name_valid(name); ustr nn = valid ? cm::norm_name(name) : ustr();
+        ustr name = S(op, 0);
+        if (long km = A(op, 2)) if (!p.items.empty()) {                    // aim at an existing item: its stored spelling (odd) or an equivalent one (even)
+            name = p.items[(size_t) ((km - 1) / 2) % p.items.size()].name;
+            if (km % 2 == 0) name = respell_name(name);
+        }
+        bool valid = name_valid(name); ustr nn = valid ? cm::norm_name(name) : ustr();
         if (!valid) label("name:invalid");
         int ii = -1;
         if (valid) for (size_t i = 0; i < p.items.size(); i++) if (cm::norm_name(p.items[i].name) == nn) ii = (int) i;
@@ -764,6 +787,7 @@ static const std::vector<ustr> &badname_pool() {
     return p;
 }
 static ustr pick(const std::vector<ustr> &p) { return p[(size_t) *g::range(0, (int) p.size() - 1)]; }
+static long kmode() { return *g::chance(50) ? 0 : 1 + *g::range(0, 15); }   // 0: the literal key/name of the op; k: aim at an existing entry
 static long elem_sel() { int w = *g::range(0, 10); return w < 2 ? 0 : w < 5 ? 1 : 2 + *g::range(0, 11); }
 
 // mode 0: any operation; 1: an operation that makes a root value; 2: packet_create
@@ -771,10 +795,10 @@ static rc::Gen<Op> op_gen(int mode) {
     return rc::gen::exec([mode]() {
         Op o;
         o.code = mode == 2 ? (int) O_PCREATE : mode == 1 ? *rc::gen::weightedElement<int>({{3, O_CREATE}, {4, O_TREE}}) : *rc::gen::weightedElement<int>({{2, O_CREATE}, {2, O_TREE}, {4, O_INIT}, {3, O_INITCHAR}, {3, O_COPYCHAR}, {3, O_PARSENUMB}, {2, O_INITNUMB}, {2, O_AUTONUMB}, {4, O_SETQ},
-                                                 {2, O_CLEAN}, {5, O_CLONE}, {3, O_FREE}, {2, O_COUNT}, {4, O_LGET}, {5, O_LSET}, {5, O_LINS}, {4, O_LREM}, {4, O_LAPPEND},
-                                                 {6, O_TSET}, {4, O_TGET}, {4, O_TREM}, {2, O_TKEYS}, {4, O_PCREATE}, {5, O_PSET}, {3, O_PGET}, {3, O_PREM}, {1, O_PNAMES}, {1, O_PFREE}});
+                                                 {2, O_CLEAN}, {5, O_CLONE}, {3, O_FREE}, {2, O_COUNT}, {6, O_LGET}, {5, O_LSET}, {5, O_LINS}, {4, O_LREM}, {4, O_LAPPEND},
+                                                 {6, O_TSET}, {6, O_TGET}, {4, O_TREM}, {2, O_TKEYS}, {4, O_PCREATE}, {5, O_PSET}, {5, O_PGET}, {3, O_PREM}, {1, O_PNAMES}, {1, O_PFREE}});
         long sel = *g::range(0, 13);
-        long ksel = sel + (*g::chance(85) ? 100 : 0);    // operations that need a particular kind: mostly aimed at a value of that kind
+        long ksel = sel + (*g::chance(85) ? 100 : 0), ssel = sel + (*g::chance(70) ? 100 : 0);    // operations that need a particular kind: mostly aimed at a value of that kind
         switch (o.code) {
         case O_CREATE: o.a = {*rc::gen::weightedElement<long>({{2, 0}, {1, 1}, {5, 2}, {5, 3}, {1, 4}, {1, 5}})}; break;
         case O_TREE: {
@@ -782,25 +806,26 @@ static rc::Gen<Op> op_gen(int mode) {
             Value v = *rc::gen::scale(0.6, g::value(vo, 0));
             if (*g::chance(60) && v.k != Value::LIST && v.k != Value::TABLE) { Value w = *g::chance(50) ? Value::list({v, Value::na()}) : Value::table({{u"a", v}, {U({0x65, 0x301}), Value::list({Value::chr(u"in")})}}); v = w; }
             o.s = {u16(cm::ser(v))}; break; }
-        case O_INIT: o.a = {sel, *rc::gen::weightedElement<long>({{2, 0}, {1, 1}, {4, 2}, {4, 3}, {1, 4}, {1, 5}})}; break;
+        case O_INIT: o.a = {ssel, *rc::gen::weightedElement<long>({{2, 0}, {1, 1}, {4, 2}, {4, 3}, {1, 4}, {1, 5}})}; break;
         case O_INITCHAR: case O_COPYCHAR: {
             ustr t = pick(char_pool());
             if (*g::chance(25)) { t = *g::text(g::P_CIF2, 10); }
-            o.a = {sel}; o.s = {t}; break; }
-        case O_PARSENUMB: o.a = {sel}; o.s = {*g::chance(15) ? *g::number_text() : pick(numb_pool())}; break;
-        case O_INITNUMB: o.a = {sel, *g::range(0, 6), *g::range(0, 3), *g::range(0, 4), *g::range(0, 5)}; break;
-        case O_AUTONUMB: o.a = {sel, *g::range(0, 6), *g::range(0, 3), *g::range(0, 3)}; break;
+            o.a = {ssel}; o.s = {t}; break; }
+        case O_PARSENUMB: o.a = {ssel}; o.s = {*g::chance(15) ? *g::number_text() : pick(numb_pool())}; break;
+        case O_INITNUMB: o.a = {ssel, *g::range(0, 6), *g::range(0, 3), *g::range(0, 4), *g::range(0, 5)}; break;
+        case O_AUTONUMB: o.a = {ssel, *g::range(0, 6), *g::range(0, 3), *g::range(0, 3)}; break;
         case O_SETQ: o.a = {ksel, *g::range(0, 1)}; break;
-        case O_CLEAN: o.a = {sel}; break;
+        case O_CLEAN: o.a = {ssel}; break;
         case O_COUNT: case O_TKEYS: o.a = {ksel}; break;
         case O_CLONE: o.a = {sel, *g::chance(45) ? 0 : 1 + *g::range(0, 7)}; break;
         case O_FREE: o.a = {*g::range(0, 7)}; break;
-        case O_LGET: o.a = {ksel, *g::range(0, 5)}; break;
+        case O_LGET: o.a = {ksel, *rc::gen::weightedElement<long>({{4, 0}, {4, 1}, {4, 2}, {2, 3}, {1, 4}, {1, 5}})}; break;
         case O_LSET: case O_LINS: o.a = {ksel, *rc::gen::weightedElement<long>({{3, 0}, {3, 1}, {3, 2}, {2, 3}, {1, 4}, {1, 5}}), elem_sel()}; break;
         case O_LREM: o.a = {ksel, *rc::gen::weightedElement<long>({{3, 0}, {3, 1}, {3, 2}, {2, 3}, {1, 4}, {1, 5}}), *g::range(0, 1)}; break;
         case O_LAPPEND: o.a = {ksel, *g::range(0, 15), elem_sel()}; break;
-        case O_TSET: o.a = {ksel, elem_sel()}; o.s = {pick(key_pool())}; break;
-        case O_TGET: case O_TREM: o.a = {ksel, *g::range(0, 1)}; o.s = {pick(key_pool())}; break;
+        case O_TSET: o.a = {ksel, elem_sel(), kmode()}; o.s = {pick(key_pool())}; break;
+        case O_TGET: o.a = {ksel, *g::chance(75) ? 1 : 0, kmode()}; o.s = {pick(key_pool())}; break;
+        case O_TREM: o.a = {ksel, *g::range(0, 1), kmode()}; o.s = {pick(key_pool())}; break;
         case O_PCREATE: {
             int n = *g::range(0, 3); std::vector<ustr> names;
             for (int i = 0; i < n; i++) {
@@ -810,8 +835,8 @@ static rc::Gen<Op> op_gen(int mode) {
             }
             if (*g::chance(25)) names.insert(names.begin() + *g::range(0, (int) names.size()), pick(badname_pool()));
             o.a = {*g::range(0, 1)}; o.s = names; break; }
-        case O_PSET: o.a = {*g::range(0, 3), elem_sel()}; o.s = {*g::chance(12) ? pick(badname_pool()) : pick(name_pool())}; break;
-        case O_PGET: case O_PREM: o.a = {*g::range(0, 3), *g::range(0, 1)}; o.s = {*g::chance(12) ? pick(badname_pool()) : pick(name_pool())}; break;
+        case O_PSET: o.a = {*g::range(0, 3), elem_sel(), kmode()}; o.s = {*g::chance(12) ? pick(badname_pool()) : pick(name_pool())}; break;
+        case O_PGET: case O_PREM: o.a = {*g::range(0, 3), *g::chance(65) ? 1 : 0, kmode()}; o.s = {*g::chance(12) ? pick(badname_pool()) : pick(name_pool())}; break;
         case O_PNAMES: case O_PFREE: o.a = {*g::range(0, 3)}; break;
         }
         return o;
